@@ -15,6 +15,7 @@ from collections.abc import Iterable
 from ..basic import Cut
 from ..choice import Choice
 from ..base import Box, Model, Rule
+from ..rulelike import RuleInclude
 from ..syntax import Call, Sequence
 from . import sccutils
 
@@ -46,6 +47,10 @@ def _callable_rule_ids(exp: Model, rule_index: dict[str, int]) -> list[int]:
     if isinstance(exp, Box):
         return _callable_rule_ids(exp.exp, rule_index)
 
+    if isinstance(exp, RuleInclude) and exp.exp is not None:
+        # NOTE: an include stands for the body of the included rule
+        return _callable_rule_ids(exp.exp, rule_index)
+
     return []
 
 
@@ -58,6 +63,9 @@ def _is_nullable_safe(exp: Model) -> bool:
 
     if isinstance(exp, Choice):
         return any(_is_nullable_safe(opt) for opt in exp.options)
+
+    if isinstance(exp, RuleInclude) and exp.exp is not None:
+        return _is_nullable_safe(exp.exp)
 
     return exp.is_nullable()
 
